@@ -18,7 +18,7 @@ for id in $LIST; do
   git -C /repo checkout -- .
   ded=$(grep "^VIOLATION" /tmp/seed_$id.log | grep -c "obligation=")
   nat=$(grep "^VIOLATION" /tmp/seed_$id.log | grep -vc "obligation=")
-  dnames=$(grep "^VIOLATION" /tmp/seed_$id.log | grep -o "obligation=[^ ]*" | sed 's/obligation=//' | head -2 | sed 's/|/\//g' | tr '\n' ';' | sed 's/;$//; s/;/ ; /')
+  dnames=$(grep "^VIOLATION" /tmp/seed_$id.log | grep "obligation=" | sed -e 's/.*obligation=//' -e 's/ no-failing-input-found$//' | head -2 | sed 's/|/\//g' | tr '\n' ';' | sed 's/;$//; s/;/ ; /')
   nnames=$(grep "^VIOLATION" /tmp/seed_$id.log | grep -v "obligation=" | sed -e 's/.*replay=\/verif\/replays\///' -e 's/\.json.*//' -e 's/|/\//g' | head -2 | tr '\n' ';' | sed 's/;$//; s/;/ ; /')
   echo "| $id | $prop | $rc | $ded: $dnames | $nat: $nnames |" > $ROWS/$id
   echo "$id rc=$rc ded=$ded nat=$nat"
